@@ -27,7 +27,8 @@ macro_rules! num_float {
         impl Num for $t {
             const NAME: &'static str = stringify!($t);
             const SIGNED: bool = true;
-            fn from_i64(x: i64) -> Self { x as $t }
+            // i64::MIN is the workloads' token for "not a number" (only ever put on self-loops, which no answer may use)
+            fn from_i64(x: i64) -> Self { if x == i64::MIN { <$t>::NAN } else { x as $t } }
             fn to_i64(self) -> i64 {
                 // a non-integral / non-finite value can never equal an oracle value
                 if self.fract() == 0.0 && self.abs() < 1e15 { self as i64 } else { i64::MIN + 7 }
